@@ -61,6 +61,17 @@ structure LenC where
 def LenC.admits (c : LenC) (n : Nat) : Prop :=
   (∀ lo, c.lo = some lo → lo ≤ (n : Int)) ∧ (∀ hi, c.hi = some hi → (n : Int) ≤ hi)
 
+/-- The invariant of the `LenConstraint`s that the inference produces: bounds are not negative and,
+when both are given, ordered.  (Established by `reduce`, preserved by `merge`, and sufficient for the
+pre-condition of `LenConstraint.__init__`.) -/
+def LenC.WF (c : LenC) : Prop :=
+  (∀ lo, c.lo = some lo → 0 ≤ lo) ∧ (∀ hi, c.hi = some hi → 0 ≤ hi) ∧
+  (∀ lo hi, c.lo = some lo → c.hi = some hi → lo ≤ hi)
+
+def wfOpt : Option LenC → Prop
+  | none => True
+  | some c => c.WF
+
 /-- An optional `LenConstraint`; `None` admits everything. -/
 def admitsOpt : Option LenC → Nat → Prop
   | none, _ => True
